@@ -822,6 +822,8 @@ fn register_e1(reg: &mut zverif::Registry) {
     for (cname, cfg) in [
         ("default", TrieBlobStoreConfig::default as fn() -> TrieBlobStoreConfig),
         ("memory_optimized", TrieBlobStoreConfig::memory_optimized),
+        // the same preset with the statistics switched on (len() is read from them): the LOUDS-backed trie behind a working len()
+        ("memory_optimized+statistics", || TrieBlobStoreConfig { enable_statistics: true, ..TrieBlobStoreConfig::memory_optimized() }),
         ("security_optimized", TrieBlobStoreConfig::security_optimized),
     ] {
         let q = if cname == "default" { (4, 5) } else { (3, 4) };
